@@ -5,6 +5,7 @@ every explored input that the result is a function of the consumed prefix only; 
 for seeded concatenations of documents with arbitrary whitespace between them, what each successive call
 returns and consumes; the library is run on std::istream, a byte-wise and a block-wise custom reader (and
 the Arduino Stream fake) and must return the same documents and stop at the same positions."""
+import os
 import random
 
 import vlib
@@ -41,5 +42,19 @@ def run(tier):
         chk.cov["traces_validated_against_impl"] += ran
         chk.cov["evaluations"] += evals
     chk.phase("feed:msgpack-sessions", lines=n)
+    # containers on both sides of the 16-bit count boundary, followed by another document
+    import json
+    bulk = os.path.join(wd, "bulk-sessions.ndjson")
+    with open(bulk, "w") as f:
+        for c in mg.bulk_session_cases():
+            f.write(json.dumps(c) + "\n")
+    ran, evals, problems, _ = rc.replay_cases(chk, bins["def"], bulk, "bulk-sessions/def", parts=5)
+    for what, case in problems[:3]:
+        chk.violation(what, (case or "")[:2000])
+    chk.cov["traces_validated_against_impl"] += ran
+    chk.cov["evaluations"] += evals
+    chk.phase("bulk-sessions", cases=ran)
     return rk.finish(chk, "one evaluation = one call of a session (or one single-document case) on one stream kind; "
-                          "code, value and number of bytes taken from the stream compared", rk.COMMON_ASSUMPTIONS)
+                          "code, value and number of bytes taken from the stream compared", rk.COMMON_ASSUMPTIONS + [
+        "containers with more than 65535 entries are beyond TLC's sequence operators: for those sessions the expected "
+        "calls (element count, bytes consumed) are those of the encoder that wrote them"])
